@@ -40,6 +40,7 @@ def run(ctx):
     A = ctx.analyzer
     ctx.rule('R1', 'each lb/ub update stores the value it compares, in the direction of its role (lb: min, ub: max), and starts from the same quantity for block 0', 6)
     ctx.rule('R2', 'a negative block length returns MPI_ERR_ARG before any datatype is constructed', 5)
+    ctx.rule('R7', 'create_indexed / hindexed / struct: the lb / ub updates are reached only for blocks of positive length (a zero-length block has no entry in the type map, MPI 4.1.7)', 3)
     ctx.rule('R3', 'the size accumulates every block', 3)
     for name in ('create_indexed', 'create_hindexed', 'create_struct'):
         f = P.fn(D + '::' + name)
@@ -100,6 +101,34 @@ def run(ctx):
                                           'initial %s, loop compares %s' % (ex.pretty(got), ex.pretty(cexp)), key='R1|%s|%s initial' % (name, acc))
             if found == 0:
                 ctx.unrecognised('R1', '%s: no extremum update of %s found' % (name, acc))
+        # R7: a block of length 0 has no entry in the type map (MPI 4.1.7: lb = min of the displacements of the entries): it may not move a bound
+        unguarded = []
+        nsites = 0
+        for b in sorted(body, reverse=True):
+            for eid in v.blocks[b].get('e', []):
+                for e in v.events_of(eid):
+                    if e.kind == 'assign' and e.op == '=' and e.lhs[0] == 'var' and e.lhs[2] in ('lb', 'ub') and not e.decl:
+                        from .C13 import _dominating_facts
+                        dom = _dominating_facts(A, f, f['elems'][eid]['x'])
+                        if any('MPI_LB' in repr(a_) or 'MPI_UB' in repr(a_) for a_, _t in dom) and not any(a_[0] == 'bin' and (a_[2] == e.lhs or a_[3] == e.lhs) for a_, _t in dom):
+                            continue      # forced by an explicit marker
+                        nsites += 1
+
+                        def nonempty(a_, t_):
+                            if not (a_[0] == 'bin' and 'block_length' in repr(a_)):
+                                return False
+                            x, y = a_[2], a_[3]
+                            if 'block_length' in repr(x) and y[0] == 'int':
+                                return (a_[1] == '<=' and y[1] == 0 and not t_) or (a_[1] == '<' and y[1] == 1 and not t_) or (a_[1] == '==' and y[1] == 0 and not t_)
+                            if 'block_length' in repr(y) and x[0] == 'int':
+                                return (a_[1] == '<' and x[1] == 0 and t_) or (a_[1] == '<=' and x[1] == 1 and t_) or (a_[1] == '==' and x[1] == 0 and not t_)
+                            return False
+                        if not any(nonempty(a_, t_) for a_, t_ in dom):
+                            unguarded.append(e)
+        if nsites:
+            ctx.check(not unguarded, 'R7', '%s: a block of length 0 does not move lb / ub' % name, where(f, unguarded[0].line if unguarded else None),
+                      '%d of %d bound update(s) are reached for an empty block: its displacement enters the minimum / maximum although the block has no entry in the type map' % (len(unguarded), nsites)
+                      if unguarded else '%d update(s), all under block length > 0' % nsites, key='R7|%s|empty blocks' % name)
         # size accumulation: unconditional in the body (only preceded by the negative-length return)
         sz = [e for b in body for eid in v.blocks[b].get('e', []) for e in v.events_of(eid) if e.kind == 'assign' and e.op == '+=' and e.lhs[0] == 'var' and e.lhs[2] == 'size']
         oks = len(sz) == 1 and 'block_lengths' in repr(sz[0].rhs) and ivar is not None and ex.mentions(sz[0].rhs, ivar)
